@@ -43,7 +43,7 @@ def _unitaries(rng):
             [cirq.CNOT, cirq.CZ ** e, cirq.ISWAP ** 0.5, cirq.SWAP, cirq.FSimGate(0.4, 0.7)])
 
 
-def _noisy_circuit(rng, measurements=False, max_q=3):
+def _noisy_circuit(rng, measurements=False, max_q=3, pauli_measurements=False):
     import cirq
 
     n = rng.choice([1, 2, 2, 3][: max_q + 1])
@@ -61,7 +61,11 @@ def _noisy_circuit(rng, measurements=False, max_q=3):
         k = cirq.num_qubits(g)
         ops.append(g.on(*rng.sample(qs, k)))
         if measurements and rng.random() < 0.2 and nm < 2:
-            ops.append(cirq.measure(*rng.sample(qs, rng.randrange(1, n + 1)), key=f"m{nm}"))
+            if pauli_measurements and n >= 2 and rng.random() < 0.5:
+                pq = rng.sample(qs, rng.randrange(2, n + 1))
+                ops.append(cirq.measure_single_paulistring(cirq.PauliString({x: rng.choice([cirq.X, cirq.Y, cirq.Z]) for x in pq}), key=f"m{nm}"))
+            else:
+                ops.append(cirq.measure(*rng.sample(qs, rng.randrange(1, n + 1)), key=f"m{nm}"))
             nm += 1
     return cirq.Circuit(ops, strategy=rng.choice([cirq.InsertStrategy.EARLIEST, cirq.InsertStrategy.NEW])), qs
 
@@ -130,6 +134,17 @@ def ref_density_branches(circuit, qubits):
                     rec2.setdefault(str(cirq.measurement_key_name(o)), []).append(tuple(((1 - v) if m else v, dd) for v, m, dd in zip(vals, mask, mdims)))
                     new.append((rec2, r2))
                 continue
+            if isinstance(o.gate, cirq.PauliMeasurementGate):
+                P = refsim.embed(cirq.unitary(o.gate.observable()), list(o.qubits), list(qubits), dims)
+                for bit, sign in ((0, 1), (1, -1)):
+                    E = (np.eye(D) + sign * P) / 2
+                    r2 = E @ rho @ E
+                    if abs(np.trace(r2)) < 1e-14:
+                        continue
+                    rec2 = {k: list(v) for k, v in rec.items()}
+                    rec2.setdefault(str(cirq.measurement_key_name(o)), []).append(((bit, 2),))
+                    new.append((rec2, r2))
+                continue
             tot = np.zeros_like(rho)
             for K in cirq.kraus(o):
                 E = refsim.embed(np.asarray(K, dtype=complex), list(o.qubits), list(qubits), dims)
@@ -167,7 +182,7 @@ def standin_density(tier, seed):
     rng = random.Random(seed)
     n = 60 if tier == "quick" else 800
     cases, fails, distinct = 0, [], set()
-    opts = [dict(), dict(split_untangled_states=False), dict(dtype=np.complex128), dict(final_density_matrix=True)]
+    opts = [dict(), dict(split_untangled_states=False), dict(dtype=np.complex128), dict(final_density_matrix=True), dict(branches=True), dict(branches=True, split_untangled_states=False)]
     for _ in range(n):
         opt = rng.choice(opts)
         meas = "final_density_matrix" in opt
@@ -184,8 +199,15 @@ def standin_density(tier, seed):
         cases += 1
         distinct.add(repr(c))
         args = dict(circuit=repr(c), options=repr(opt))
+        if "branches" in opt:
+            c, qs = _noisy_circuit(rng, measurements=True, pauli_measurements=True)
+            args = dict(circuit=repr(c), options=repr(opt))
         try:
-            if meas:
+            if "branches" in opt:
+                kw = {k: v for k, v in opt.items() if k != "branches"}
+                brs = enumerate_branches(lambda r: cirq.DensityMatrixSimulator(seed=r, dtype=np.complex128, **kw).simulate(c, qubit_order=qs).final_density_matrix, max_branches=4096)
+                got = sum(p * rho for p, rho in brs)
+            elif meas:
                 got = cirq.final_density_matrix(c, ignore_measurement_results=True, dtype=np.complex128)
                 qs = sorted(c.all_qubits())
             else:
@@ -216,7 +238,7 @@ def standin_trajectories(tier, seed):
     n = 40 if tier == "quick" else 500
     cases, fails, distinct, total_branches = 0, [], set(), 0
     for _ in range(n):
-        c, qs = _noisy_circuit(rng, measurements=rng.random() < 0.4, max_q=2)
+        c, qs = _noisy_circuit(rng, measurements=rng.random() < 0.5, max_q=3 if rng.random() < 0.3 else 2, pauli_measurements=True)
         if sum(1 for op in c.all_operations() if not cirq.has_unitary(op)) > 4:
             continue
         cases += 1
@@ -236,7 +258,7 @@ def standin_trajectories(tier, seed):
         total_branches += len(brs)
         tot = sum(p for p, _ in brs)
         rho = sum(p * np.outer(psi, psi.conj()) for p, psi in brs)
-        want = ref_density(c, list(qs))
+        want = sum(r for _, r in ref_density_branches(c, list(qs)))
         if abs(tot - 1) > 1e-7:
             fails.append(dict(args=args, failed="branch-probabilities", clause=f"branch probabilities sum to {tot:.8f}"))
         elif any(abs(np.vdot(psi, psi) - 1) > 1e-6 for _, psi in brs):
